@@ -53,9 +53,6 @@ func c10proj(c *Ctx) {
 			}
 		}
 	}
-	if len(clos) < 10 {
-		c.Unk("C10.R1", "proj#transformer-closures", token.NoPos, "only %d Transformer closures found", len(clos))
-	}
 	for _, cl := range clos {
 		var rebind, leak *ssa.Store
 		d := newDepAn()
@@ -99,7 +96,6 @@ func c10proj(c *Ctx) {
 			c.OK("C10.R1", cl.name+"#b-argument-leak", cl.fn.Pos(), "no argument-dependent store to captured or package-level state")
 		}
 	}
-	c10fieldStores(c, p, reg)
 	c10indexGuard(c, p)
 	_ = info
 }
